@@ -1220,6 +1220,32 @@ def _variants(h, ix):
         yield ix[:-2] + (ix[-1], ix[-2])
 
 
+def _refine(f, free):
+    """colour refinement (two rounds) of the factor graph: a cheap isomorphism invariant per factor."""
+    H = ST.head
+    inc = {}
+    for h, ix in f:
+        sym_ = len(ix) >= 2 and H[h].sym
+        for p, x in enumerate(ix):
+            pos = p if not (sym_ and p >= len(ix) - 2) else -1
+            inc.setdefault(x, []).append((h, pos))
+    vt = {x: (("F", x) if x in free else ("B", tuple(sorted(v)))) for x, v in inc.items()}
+
+    def fsig(h, ix, vt):
+        t = [vt[x] for x in ix]
+        if len(ix) >= 2 and H[h].sym:
+            t = t[:-2] + sorted(t[-2:])
+        return (h, tuple(t))
+    s1 = [fsig(h, ix, vt) for h, ix in f]
+    # second round: a variable is characterised by the signatures of the factors it touches
+    inc2 = {}
+    for (h, ix), sg in zip(f, s1):
+        for x in ix:
+            inc2.setdefault(x, []).append(sg)
+    vt2 = {x: (("F", x) if x in free else ("B", tuple(sorted(map(repr, v))))) for x, v in inc2.items()}
+    return [fsig(h, ix, vt2) for h, ix in f]
+
+
 def iso(n1, n2, free):
     f1 = list(n1.f)
     f2 = list(n2.f)
@@ -1227,10 +1253,22 @@ def iso(n1, n2, free):
         return False
     if sorted((h, len(i)) for h, i in f1) != sorted((h, len(i)) for h, i in f2):
         return False
-    # most constrained first: rare heads first
-    hc = Counter(h for h, _ in f1)
-    f1.sort(key=lambda g: (hc[g[0]], g[0]))
     ST.stats["iso"] += 1
+    if len(f1) > 3:
+        g1, g2 = _refine(f1, free), _refine(f2, free)
+        r1, r2 = sorted(map(repr, g1)), sorted(map(repr, g2))
+        if r1 != r2:
+            return False
+        sig1 = [repr(x) for x in g1]
+        sig2 = [repr(x) for x in g2]
+        cnt = Counter(sig1)
+        order = sorted(range(len(f1)), key=lambda k: (cnt[sig1[k]], sig1[k]))
+        f1 = [f1[k] for k in order]
+        sig1 = [sig1[k] for k in order]
+    else:
+        hc = Counter(h for h, _ in f1)
+        f1.sort(key=lambda g: (hc[g[0]], g[0]))
+        sig1 = sig2 = None
 
     def rec(k, used, m, mi):
         if k == len(f1):
@@ -1239,8 +1277,9 @@ def iso(n1, n2, free):
         for j, (h2, ix2) in enumerate(f2):
             if j in used or h2 != h or len(ix2) != len(ix):
                 continue
+            if sig1 is not None and sig2[j] != sig1[k]:
+                continue
             for v in _variants(h2, ix2):
-                mm = None
                 ok = True
                 added = []
                 for a, b in zip(ix, v):
